@@ -153,7 +153,7 @@ func (e *connEnd) Write(p []byte) (int, error) {
 		}
 		for !exempt && pe.inflightN >= s.sndWindow && ((e.readWaiting > 0 && len(e.rbuf) == 0) || streamer) && !e.eofDelivered &&
 			!e.closed && !e.reset && !pe.closed && !pe.reset {
-			s.stats["net.writes_blocked_on_window"]++
+			s.stat("net.writes_blocked_on_window", 1)
 			e.wblocked++
 			pe.wcond.Wait()
 			e.wblocked--
